@@ -310,7 +310,9 @@ pub fn run(check: GridCheck, tier: &str, seed: u64) -> i32 {
             if let Some(s) = r["samples"].as_array() {
                 if ev.samples.len() < 6 {
                     for x in s.iter().take(1) {
-                        ev.samples.push(json!({"program": render::macro_body(&chunk[idx]).replace("\n        ", " "), "macro": chunk[idx].mac, "run": x}));
+                        let text: String = render::macro_body(&chunk[idx]).replace("\n        ", " ");
+                        let short: String = if text.chars().count() > 900 { format!("{} ... [{} characters]", text.chars().take(900).collect::<String>(), text.chars().count()) } else { text };
+                        ev.samples.push(json!({"program": short, "macro": chunk[idx].mac, "run": x}));
                     }
                 }
             }
@@ -342,6 +344,13 @@ pub fn run(check: GridCheck, tier: &str, seed: u64) -> i32 {
         let what = known.open(&check.id, sig).and_then(|e| e["what"].as_str()).unwrap_or("");
         println!("KNOWN-FINDING: property={} {} [{} generated programs of this class excluded]", check.id, what, n);
         ev.known_findings.push(sig.clone());
+    }
+    if ev.samples.is_empty() {
+        // never leave the sample list empty: show the first generated program
+        if let Some(p) = progs.first() {
+            let text: String = render::macro_body(p).replace("\n        ", " ").chars().take(900).collect();
+            ev.samples.push(json!({"program": text, "macro": p.mac, "run": "no per-run sample was reported for this program"}));
+        }
     }
     ev.excluded_known += crate::checks::EXCLUDED_D4.load(std::sync::atomic::Ordering::SeqCst);
     ev.violations = found.len() as u64;
